@@ -249,6 +249,30 @@ def _revalidated(rhs, target, fn=None):
     return isinstance(fn, ast.Call) and isinstance(fn.func, ast.Name) and fn.func.id == "type" and len(fn.args) == 1 and norm(fn.args[0]) == norm(target)
 
 
+def _same_shape_and_dtype(rhs, target, fn):
+    """`T._data = a` where the function has established, for these very names, that a has T's shape (a guard `a.shape != T.shape` that
+    raises, written as a plain comparison of the two shapes) and T's dtype (`a = a.astype(T.dtype)`): an array of the same shape and
+    dtype as valid data of that object is valid data of that object."""
+    if not isinstance(rhs, ast.Name) or fn is None:
+        return False
+    a, t = rhs.id, norm(target)
+    shape_guard = cast = False
+    for n in ast.walk(fn):
+        if isinstance(n, ast.If) and n.body and isinstance(n.body[-1], ast.Raise):
+            # `if a.shape != T.shape: raise`, possibly as one conjunct of `if <flag> and a.shape != T.shape: raise`
+            tests = [n.test] + (list(n.test.values) if isinstance(n.test, ast.BoolOp) and isinstance(n.test.op, ast.And) else [])
+            for c_ in tests:
+                if isinstance(c_, ast.Compare) and len(c_.ops) == 1 and isinstance(c_.ops[0], ast.NotEq):
+                    l, r = norm(c_.left), norm(c_.comparators[0])
+                    if {l, r} == {f"{a}.shape", f"{t}.shape"}:
+                        shape_guard = True
+        if isinstance(n, ast.Assign) and len(n.targets) == 1 and isinstance(n.targets[0], ast.Name) and n.targets[0].id == a \
+                and isinstance(n.value, ast.Call) and isinstance(n.value.func, ast.Attribute) and n.value.func.attr == "astype" \
+                and norm(n.value.func.value) == a and n.value.args and norm(n.value.args[0]) == f"{t}.dtype":
+            cast = True
+    return shape_guard and cast
+
+
 def r3_who_may_write(ck, prog, run):
     sig_classes = prog.signal_classes()
     props = {v for v in PRIVATE.values() if v}
@@ -276,7 +300,8 @@ def r3_who_may_write(ck, prog, run):
                         ok = in_sigclass and isinstance(t2.value, ast.Name) and t2.value.id == selfname and (
                             (f.kind == "setter" and f.name == own) or (t2.attr == "_data" and f.qualname == "Signal.__init__"))
                         how = f"stored in {f.qualname}"
-                        if not ok and t2.attr == "_data" and in_sigclass and isinstance(node, ast.Assign) and _revalidated(node.value, t2.value, f.node):
+                        if not ok and t2.attr == "_data" and in_sigclass and isinstance(node, ast.Assign) and (_revalidated(node.value, t2.value, f.node)
+                                                                                                                       or _same_shape_and_dtype(node.value, t2.value, f.node)):
                             # b._data = type(b).like(b, x).data / type(b)(x, ...).data : the array has just been through the class's
                             # own constructor (dimension, shape and dtype checks, safe cast), built for this very object
                             ok, how = True, how + " from the data of an object freshly built by the target's own class"
